@@ -203,6 +203,13 @@ def quantise(scene, res):
     return scene
 
 
+def _large(rng):
+    """More than a thousand hits (code paths that only large chunks take)."""
+    h = rng.choice([1200, 2500])
+    decks = [(h, 40, 0.95), (h + rng.choice([2500, 4000]), 60, rng.choice([0.5, 0.9]))]
+    return {'rows': decks_rows(rng, 3, rng.randint(400, 460), decks), 'prms': {}}
+
+
 def _no_hit(rng):
     return {'rows': decks_rows(rng, rng.choice([1, 2, 3]), rng.randint(5, 30), []), 'prms': {}}
 
@@ -278,6 +285,7 @@ RECIPES = {
     'split': _split,
     'merge+split': _merge_split, 'rng-sensitive': _rng_sensitive, 'borderline': _borderline,
     'asym-split': _asym_split, 'two-valued': _two_valued, 'high-close': _high_close,
+    'large': _large,
     'no-hit': _no_hit,
     'single-hit': _single_hit, 'sparse': _sparse, 'vv': _vv, 'msa-crop': _msa_crop,
     'multi-hit': _multi_hit, 'many-sets': _many_sets, 'demo-like': _demo_like,
